@@ -78,3 +78,6 @@ func VerifC05_Gate() {
 	}
 	vpReach("end")
 }
+
+// VerifServe dispatches one command exactly as the connection loop does (Server.mux.ServeRESP).
+func (s *Server) VerifServe(conn redcon.Conn, cmd redcon.Command) { s.mux.ServeRESP(conn, cmd) }
